@@ -138,3 +138,37 @@ STRUCTURAL = [strategy_builders_keep_no_state]
 from contracts.C13_containers import ColumnStrategy  # noqa: E402
 
 ColumnStrategy.bounded_standin = staticmethod(_column_strategy_standin)
+
+
+def _series_strategy_standin(seed=0, tier="quick"):
+    """run-time contract on the real series_strategy: several vectorised custom checks WITHOUT a strategy (honoured by filtering whole
+    draws) - every drawn Series satisfies EVERY one of them, whichever comes last"""
+    import warnings
+
+    import pandera as pa
+    from pandera.engines import pandas_engine
+    from pandera.strategies import pandas_strategies as PS
+
+    warnings.simplefilter("ignore")
+    import pandas as pd
+
+    pa.SeriesSchema(int).validate(pd.Series([1]))  # (registers the pandas check back ends, as any first validation does)
+    n, obs = 0, {}
+    preds = {"all >= -50": lambda s: bool((s >= -50).all()), "sum >= 0": lambda s: bool(s.sum() >= 0), "max <= 60": lambda s: bool(s.max() <= 60) if len(s) else True}
+    orders = [["all >= -50", "sum >= 0"], ["sum >= 0", "all >= -50"], ["max <= 60", "sum >= 0", "all >= -50"]]
+    for order in orders:
+        checks = [pa.Check((lambda f: (lambda s: f(s)))(preds[k]), name=k) for k in order]
+        strat = PS.series_strategy(pandas_engine.Engine.dtype(int), checks=[pa.Check.in_range(-100, 100)] + checks, size=4)
+        for _ in range(6):
+            n += 1
+            s = strat.example()
+            bad = [k for k in order if not preds[k](s)]
+            if bad:
+                return {"examples": n, "bound": "3 orders of 2-3 vectorised custom checks, 6 draws each", "failing_input": {"checks in order": order, "drawn": s.tolist()},
+                        "observed": f"the draw violates {bad}"}
+    return {"examples": n, "bound": "3 orders of 2-3 vectorised custom checks, 6 draws each", "failing_input": None}
+
+
+from contracts.C13_containers import SeriesStrategy  # noqa: E402
+
+SeriesStrategy.bounded_standin = staticmethod(_series_strategy_standin)
